@@ -23,7 +23,7 @@ PROPS = {}
 PROPS["C14"] = dict(
     harness="c14_tridiag", flavour="asan",
     quick=dict(workers=16, cases=48000, min_nontrivial=200, budget_s=900),
-    thorough=dict(workers=16, cases=2000000, min_nontrivial=2000, budget_s=3000,
+    thorough=dict(workers=16, cases=800000, min_nontrivial=2000, budget_s=3000,
                   fuzz=dict(target="f14_tridiag", runs=400000, jobs=8, max_len=2048)),
     rule="SPD (cyclic) symmetric tridiagonal systems built by construction: strictly diagonally dominant with "
          "sub-diagonals of either sign and zeros (dom), L*D*L^T from random unit bidiagonal L and positive D (ldl), "
